@@ -65,7 +65,7 @@ def twin_inputs(kind, tags=('',)):
         r = g.r
         out = {}
         for tag in tags:
-            body = [r.randrange(1, 248)] + [r.randrange(1, 128)] + [r.randrange(256) for _ in range(r.choice([0, 1, 2, 4, 9, 20]))]
+            body = [r.randrange(1, 248)] + [r.randrange(1, 128)] + [r.randrange(256) for _ in range(r.choice([0, 1, 2, 4, 9, 20, 100, 240, 240]))]
             if kind == 'socket':
                 out[tag + 'uid'], out[tag + 'pdu'] = body[0], {'items': body[1:]}
             elif kind == 'rtu':
@@ -146,9 +146,17 @@ def partial(kind, cuts):
         rec = F.Rec()
         v, info = valid_frame(E, kind)
         n = L.length(v)
-        r = E.bytes('remainder', 0, 20) if E.mode == 'symbolic' else E.bytes('remainder', 0, 0)
+        r_info = None
+        if E.mode == 'symbolic':
+            r = E.bytes('remainder', 0, 20)
+        elif E.bool('remainder_is_a_second_frame'):
+            # concrete runs cannot stop the real loop after one iteration: the remainder is nothing, or a whole second frame (then both are delivered)
+            r, r_info = valid_frame(E, kind, 'r_')
+        else:
+            r, r_info = E.bytes('remainder', 0, 0), None
         f = receiver(E, kind, rec, [v, r])
         cb = E.callback(F.callback(E, rec), 'callback')
+        units = [info['uid']] + ([r_info['uid']] if r_info is not None else [])
         pos = [0]
         for c in range(cuts):
             pos.append(E.int('cut%d' % c, 1, None))        # at least one byte has arrived (an empty first read is the `step` lemma)
@@ -156,14 +164,14 @@ def partial(kind, cuts):
         fk = {} if kind == 'ascii' else {'finding': {'socket': 'C06-F1', 'rtu': 'C06-F2', 'binary': 'C06-F4'}[kind], 'region': pos[-1] > 0}
         for c in range(cuts):
             piece = E.as_bytes(L.slice_(v, pos[c], pos[c + 1]))
-            out = E.attempt(lambda: E.method(f, 'processIncomingPacket', piece, cb, [info['uid']], single=False))
+            out = E.attempt(lambda: E.method(f, 'processIncomingPacket', piece, cb, units, single=False))
             E.prove('partial:no-exception-while-the-frame-is-incomplete[read %d]' % (c + 1), out.ok, **fk)
             if not out.ok:
                 return
             E.prove('partial:nothing-delivered-yet[read %d]' % (c + 1), len(rec.delivered) == 0, **fk)
             E.prove('partial:buffer-retains-exactly-the-received-prefix[read %d]' % (c + 1), L.eq(E.get(f, '_buffer'), L.slice_(v, 0, pos[c + 1])), **fk)
         last = E.as_bytes(L.concat(L.slice_(v, pos[-1], n), r))
-        out = E.attempt(lambda: E.method(f, 'processIncomingPacket', last, cb, [info['uid']], single=False), allow_cut=True)
+        out = E.attempt(lambda: E.method(f, 'processIncomingPacket', last, cb, units, single=False), allow_cut=True)
         E.prove('resume:no-exception', out.ok, **fk)
         if not out.ok:
             return
@@ -204,5 +212,5 @@ def get_units():
         fns = [F.QUAL[kind] + '.' + m for m in ('processIncomingPacket', 'checkFrame', 'isFrameReady', 'advanceFrame', 'getFrame')]
         us.append(Unit('%s/step.%s' % (PROP, kind), step(kind), [PROP], contracts=CS, unroll=unroll, functions=fns, twin=twin_inputs(kind)))
         for cuts in ((1, 2) if kind == 'ascii' else (1,)):      # the other framers lose every partial read (known findings): one cut is enough to pin that
-            us.append(Unit('%s/partial.%s.%dcut' % (PROP, kind, cuts), partial(kind, cuts), [PROP], contracts=CS, unroll=unroll, functions=fns, twin=twin_inputs(kind)))
+            us.append(Unit('%s/partial.%s.%dcut' % (PROP, kind, cuts), partial(kind, cuts), [PROP], contracts=CS, unroll=unroll, functions=fns, twin=twin_inputs(kind, ('', 'r_'))))
     return us
